@@ -885,6 +885,28 @@ func (s *sink) handleReqResp(br *broker, req *produceRequest, resp kmsg.Response
 	}
 
 	if err != nil {
+		// Any batch that was serialized for this request may have been
+		// written to and appended by the broker even though we never
+		// saw a response. A later attempt that is answered with a
+		// retryable error (e.g. NOT_LEADER_FOR_PARTITION after a leader
+		// move) says nothing about this attempt, so the unknown state
+		// must persist until the batch definitively produces or fails:
+		// otherwise the batch could be failed (context cancel, timeout,
+		// retries, abort) while present in the log, and the rewound
+		// sequence number would make the broker deduplicate the next,
+		// different, batch against it.
+		//
+		// A batch of this request that is not its partition's first
+		// may already be in a new request (the first batch's failure
+		// reset the drain index): that request's AppendTo writes
+		// canFailFromLoadErrs under the batch mutex only.
+		req.batches.eachOwnerLocked(func(batch seqRecBatch) {
+			batch.mu.Lock()
+			if !batch.canFailFromLoadErrs {
+				batch.unsureIfProduced = true
+			}
+			batch.mu.Unlock()
+		})
 		s.handleReqClientErr(req, err)
 		return
 	}
@@ -1033,6 +1055,14 @@ func (s *sink) handleReqRespBatch(
 					fmt.Fprintf(b, "skipped@%d(%s)}, ", rp.BaseOffset, err)
 				}
 			}
+		}
+		// We drop this response because an earlier batch must be
+		// resent first, but the broker DID answer: if it appended this
+		// batch (or may have), that must not be forgotten when the
+		// resent batch later receives some other retryable error, or
+		// the batch could be failed while it is in the log.
+		if rp.ErrorCode == 0 || rp.ErrorCode == kerr.RequestTimedOut.Code || rp.ErrorCode == kerr.NotEnoughReplicasAfterAppend.Code {
+			batch.unsureIfProduced = true
 		}
 		return false, false
 	}
